@@ -324,7 +324,7 @@ Proof.
       split; [reflexivity|].
       apply Forall2_set_nth; [exact HR| |exact Hlen].
       unfold gen_agree. cbn [mg_kind mg_next mg_done sg_kind sg_count sg_done].
-      split; [exact Hk|split; [reflexivity|]]. intros _.
+      split; [reflexivity|split; [reflexivity|]]. intros _.
       exists (pre ++ mid ++ [h]), rest'. repeat split.
       * rewrite E, Hr, <- !app_assoc. reflexivity.
       * rewrite !zlen_app. unfold zlen at 3. cbn [length]. lia.
@@ -339,7 +339,7 @@ Proof.
       cbn [fst snd]. split; [reflexivity|].
       apply Forall2_set_nth; [exact HR| |exact Hlen].
       unfold gen_agree. cbn [mg_kind mg_next mg_done sg_kind sg_count sg_done].
-      split; [exact Hk|split; [reflexivity|]]. intros Hx. discriminate.
+      split; [reflexivity|split; [reflexivity|]]. intros Hx. discriminate.
     + contradiction.
   - (* EClose *)
     pose proof (Forall2_nth_error _ _ _ HR g) as Hg.
